@@ -264,6 +264,13 @@ def cli_part(chk):
         undefined = cli_config(d, ["Ba"])
         undefined["experiments"]["X"]["executions"] = [{"Undefined{e}": {"suites": ["S"]}}]
         expect("undefined executor", ["-D", "c.yaml"], 3, raw=undefined, no_start=True, msg_needed=True)
+        # Codespeed reporting (to a port nobody listens on): names that are not format strings are names, braces everywhere
+        cs = cli_config(d, [{"Ba": {"codespeed_name": "fast 100% %(nokey)s {b}"}}, {"Bb": {"codespeed_name": "%(cores)d cores"}},
+                            {"Bc": {"codespeed_name": "peak %(cores)s %"}}, "B{d}"])
+        cs["reporting"] = {"codespeed": {"url": "http://127.0.0.1:9/result/add/{json}/", "project": "p{q}"}}
+        for flags in (["-D"], ["-D", "-v"]):
+            expect("codespeed names that are not format strings " + " ".join(flags),
+                   flags + ["--commit-id", "abc", "--environment", "e{v}", "--branch", "b", "c.yaml"], 0, raw=cs, script={})
         # braces in every name that can reach a message, with and without -v / -d: executor, suite, experiment, benchmark, data file
         hp = "-S " + os.path.join(d, "harness.py")
         with open(os.path.join(d, "notexec{n}.sh"), "w") as f:
